@@ -740,7 +740,7 @@ class Sandbox:
         """
         if isinstance(value, SandboxVariable):
             return value.name
-        if len(repr(value)) <= self.MAXIMUM_TEMPORARY_LENGTH:
+        if len(repr(value)) <= self.MAXIMUM_TEMPORARY_LENGTH and _is_faithful_literal(repr(value), value):
             return repr(value)
         key = '_temporary_{}_{}'.format(category, name)
         if key in self.data:
@@ -1012,3 +1012,18 @@ class Sandbox:
         self.clear_input()
         self.clear_output()
         self.clear_tracer()
+
+
+def _is_faithful_literal(text, value):
+    """
+    Whether the text (a repr) can stand in for the value inside generated code:
+    on its own it has to evaluate to an equal value of the same type. That is
+    not the case for ``float('inf')``, ``float('nan')`` or most objects, which
+    are passed as temporary variables instead.
+    """
+    from ast import literal_eval
+    try:
+        rebuilt = literal_eval(text)
+        return type(rebuilt) is type(value) and bool(rebuilt == value)
+    except Exception:
+        return False
